@@ -63,7 +63,8 @@ ASSUMPTIONS = [
     'lower-casing the names (documented difference)',
     'ASGI scope client None / omitted corresponds to a WSGI environ without REMOTE_ADDR (both documented to default to '
     '127.0.0.1); ASGI server is always a (host, port) TCP pair',
-    'the path handed to both stacks is the app-relative path (root_path is not a prefix of it)',
+    'the path handed to both stacks is the app-relative path (PATH_INFO / scope path, with SCRIPT_NAME / root_path next to '
+    'it); a quarter of the requests with a root_path have a path that itself begins with the root_path text',
     'test-client sub-domain: explicit User-Agent, Host equal to host[:port] conveyed through host=/port= (absent with '
     'http_version 1.0), upper-case method, Content-Length synthesised by the client for a non-empty body and otherwise '
     'absent or decimal, raw path starting with "/", query string not starting with "?", header values without '
@@ -814,6 +815,8 @@ def classify(case, obs_list):
         labels.add('client:' + str(case['client']))
     if case['root_path']:
         labels.add('root_path')
+        if case['raw_path'].startswith(case['root_path']):
+            labels.add('path_begins_with_root_path')
     nontrivial = bool(
         [x for x in pl if x != 'path:trailing_slash']
         or 'hdr:repeated' in hl or 'hdr:noncanonical_case' in hl
@@ -1148,6 +1151,10 @@ SINGLETONS = frozenset(['content-length', 'content-type', 'cookie', 'expect', 'f
 def _assemble(method, raw_path, query, entries, ua, host, bc, cl_empty, cl_name, ct_name, chunks, scheme, server, client,
               root_path, http_version, opts, read, resp, order, client_domain):
     body, ctype = bc
+    if root_path and (len(raw_path) + len(query)) % 4 == 0:
+        # an app-relative path that happens to begin with the mount point's text (/api mounted, /api/items or /apiary
+        # requested below it): it is still the app-relative path on both stacks
+        raw_path = root_path + (raw_path if (len(query) % 2 or raw_path == '/') else raw_path.rstrip('/') or '/')
     if client_domain:
         query = query.lstrip('?')  # documented: the client refuses a query_string that starts with '?'
     headers = [h for e in entries for h in e]
